@@ -1,7 +1,9 @@
 import RbV.Basic.Codec
 import RbV.Ref.Smem
 import RbV.Model.FMDExt
+import RbV.Model.Smems
 import RbV.Model.LFSortedCheck
+import RbV.Ref.SA
 /-! Driver for property C06: FMD-index.
 
 `c06 smems <s1>/<s2>/… k:<rate> l:<l> <pattern> => <sa> <smems(p,0,l)>/…/<smems(p,|p|-1,l)> <all_smems(p,l)>`
@@ -40,6 +42,71 @@ def firstBadI (T sa p : List Nat) (l : Nat) (all : List (Nat × Nat)) : List (Li
     else some ("smems-i=" ++ toString i ++ (if sameSetG (keys r) exp then ":interval" else ":set expected:" ++ showPairs exp))
   | [], _ => none
 
+/-! ### the mirror model of Li's sweep (`RbV/Model/Smems.lean`) next to the implementation
+
+`less` / `occ` are tabulated once per line (prefix counts of the BWT of the printed array for the eleven symbols of
+the loop's order string, prefix sums of the symbol histogram), so that a sweep costs array look-ups only.  The
+tables hold the values of `LF.lessRef` / `LF.occRef`. -/
+
+def prefixCounts (bwt : Array Nat) (b : Nat) : Array Nat := Id.run do
+  let mut out := Array.mkEmpty (bwt.size + 1)
+  let mut c := 0
+  out := out.push 0
+  for x in bwt do
+    if x = b then c := c + 1
+    out := out.push c
+  return out
+
+def occTable (bwt : Array Nat) : Array (Nat × Array Nat) :=
+  (FMDModel.order.map (fun b => (b, prefixCounts bwt b))).toArray
+
+/-- `occ(r, b)` = number of `b` in `bwt[0..=r]` -/
+def occFast (tab : Array (Nat × Array Nat)) (n : Nat) (r b : Nat) : Nat :=
+  match tab.find? (fun e => e.1 == b) with
+  | some e => e.2.getD (min (r + 1) n) 0
+  | none => 0
+
+/-- `less(a)` for `a ≤ 256`: prefix sums of the histogram -/
+def lessTable (bwt : Array Nat) : Array Nat := Id.run do
+  let mut hist := Array.replicate 257 0
+  for x in bwt do
+    if x < 257 then hist := hist.modify x (· + 1)
+  let mut out := Array.mkEmpty 258
+  let mut c := 0
+  for h in hist do
+    out := out.push c
+    c := c + h
+  return out.push c
+
+def lessFast (tab : Array Nat) (n : Nat) (a : Nat) : Nat := if a < tab.size then tab.getD a 0 else n
+
+/-- table of `SmemModel.cnt T p b e` for `b < e ≤ |p|` (entry `b·(|p|+1)+e`), built by refining the occurrence
+positions of `p[b..e)` symbol by symbol -/
+def cntTable (T p : Array Nat) : Array Nat := Id.run do
+  let m := p.size
+  let mut tab := Array.replicate ((m + 1) * (m + 1)) 0
+  for b in [0:m] do
+    let mut pos : Array Nat := Array.range T.size
+    for e in [b + 1:m + 1] do
+      pos := pos.filter (fun q => T.getD (q + (e - 1 - b)) 1000 == p.getD (e - 1) 0)
+      tab := tab.setIfInBounds (b * (m + 1) + e) pos.size
+  return tab
+
+/-- does the mirror model of `smems` / `all_smems`, run on `less` / `occ` of the printed array, return exactly the
+implementation's lists (same matches, same bi-intervals, same order), and does the string-level model return the
+same (position, length) pairs? -/
+def sweepAgrees (T sa p : List Nat) (l : Nat) (perI : List (List SmemObs)) (all : List SmemObs) : Bool :=
+  let bwt := (LF.bwtOf T sa).toArray
+  let ot := occTable bwt
+  let lt := lessTable bwt
+  let ops := SmemModel.biOps (lessFast lt bwt.size) (occFast ot bwt.size)
+  let ct := cntTable T.toArray p.toArray
+  let sops := SmemModel.strOps (fun b e => ct.getD (b * (p.length + 1) + e) 0)
+  let pl (hs : List (SmemModel.Hit (Nat × Nat))) : List (Nat × Nat) := hs.map (fun h => (h.pos, h.len))
+  let okI := (List.range p.length).zip perI |>.all (fun (i, r) =>
+    (SmemModel.smems ops p i l).map SmemModel.hitObs == r && pl (SmemModel.smems sops p i l) == keys r)
+  okI && (SmemModel.allSmems ops p l).map SmemModel.hitObs == all && pl (SmemModel.allSmems sops p l) == keys all
+
 def smemsVerdict (seqs : List (List Nat)) (k l : Nat) (p : List Nat) (out : String) : String :=
   let T := fmdText seqs
   match out.splitOn " " with
@@ -66,6 +133,12 @@ def smemsVerdict (seqs : List (List Nat)) (k l : Nat) (p : List Nat) (out : Stri
             ++ tagIf (p.any (fun c => c = 78 || c = 110)) "N" ++ tagIf (p.any (· ≥ 97)) "lower"
             ++ tagIf (seqs.length ≥ 2) "multi" ++ tagIf (k > 64) "k>64" ++ tagIf (k ≤ 64) "k<=64"
             ++ tagIf (perI.any (fun r => r.any (fun o => o.fhi - o.flo ≥ 2))) "multi-occ"
+            ++ (if sweepAgrees T sa p l perI all then " smems-model=impl" else " drift-smems")
+            -- some `pattern[i]` does not occur: `smems` extends the empty `init_interval_with(pattern[i])`
+            ++ tagIf (p.any (fun c => !T.contains c)) "dead-start"
+            -- the decidable hypotheses of `smems_bi_model_correct` / `…_of_checkSA` on this case
+            ++ (if LF.sortedAllB T sa then " lf-sorted" else " not-lf-sorted")
+            ++ (if checkSA T sa then " c03-accepts-sa" else " c03-rejects-sa")
     | _, _, _ => "bad-op output"
   | _ => "bad-op output-arity"
 
